@@ -1,5 +1,27 @@
 # Human-written texts of MANIFEST.json, per property.
+LOG_NOTE = ("Trusted: Lean kernel; axioms propext/Quot.sound/Classical.choice at most; /verif/extract and the in-package Go harness; the commit-log MODEL is hand-written "
+            "(Model/Log.lean: segments, derived index, sort.Search mirror, epoch cache, readers) and tied to /repo by (a) ~25 comparison operators regenerated from the source on every run and "
+            "(b) differential runs of generated programs on real commit logs in temp dirs; OS file system, mmap and the Go runtime are below the model.")
+
 TEXT = {
+ "C01": dict(
+  level="Proof: 17 Lean theorems about the commit-log model for EVERY reachable log state (invariant Inv: inv_init/inv_step/reachable_inv by induction over arbitrary operation sequences, every segment-size limit): append assigns consecutive offsets and stores exactly the given ts/epoch/key/value/headers (append_spec, appendSet_spec, append_dense), truncate removes exactly the suffix (truncate_spec/_prefix), every other operation only extends the log (immutable_step/_run), clean reopen preserves it (reopen_spec), an uncommitted reader from ANY start offset returns exactly the retained records >= start in order across segments (readUncommitted_spec/_beyond), a committed reader exactly those in [start, hw] (readCommitted_spec), results strictly increasing (read_sorted). Tie: regenerated guards + differential harness (exhaustive abstract-op sequences x 4 segment sizes + random programs up to 40-60 ops; payload classes nil/empty/short/300B/70000B, headers incl. nil values) comparing offsets, newest/oldest/hw, per-segment layout, epoch cache and read-backs with the model and with an independent reference oracle.",
+  design_ref="DESIGN.md section 4 (C01)",
+  note=LOG_NOTE + " The byte-level message codec is covered by the harness round trips (and the nil-header-value defect it found), not yet by a Lean codec theorem.",
+  technique="Lean 4 proof (invariant + refinement to List Rec) over commit-log model + regenerated guards + differential correspondence",
+ ),
+ "C09": dict(
+  level="Proof: 10 Lean theorems about the retention model for EVERY segment layout and EVERY combination of the three limits: result is a suffix (clean_suffix), newest segment kept (clean_keeps_last), each configured limit holds unless only the newest remains (msgs_/bytes_/age_limit_holds, age_limit_holds_sorted), minimality (clean_minimal), idempotence (clean_idempotent), no limits = no-op; plus old_pipeline_violates_age documenting the defect of the 3-stage pipeline that the proof attempt exposed (counterexample replayed on the real code, repaired by fix commit 344a871). Tie: the six comparison operators and the stage order (age, messages, bytes, age) are regenerated from delete_cleaner.go; differential harness builds 1-12 segment layouts on real logs and runs Clean() under generated limits with a mocked clock.",
+  design_ref="DESIGN.md section 4 (C09)",
+  note=LOG_NOTE + " Clock is an explicit input (computeTTL mocked). Cleans concurrent with appends are exercised by C08/C03 harnesses, not by these theorems.",
+  technique="Lean 4 proof (induction over segment list) + regenerated guards and stage order + differential correspondence",
+ ),
+ "C16": dict(
+  level="Proof: 10 Lean theorems about conditional appends on the commit-log model for EVERY log state satisfying Inv and EVERY arrival order of ANY number of publishers: stored_iff (stored <=> expected = -1 or = assigned offset), stored_at_expected, rejected_incorrect_offset, rejected_unchanged, waived_accepted, publish_inv, at_most_one_winner (any interleaving = any list), stored_are_appended, batch_panics, sequencer_single_message (regenerated facts: batch size forced to 1, AckPolicy NONE refused). Tie: regenerated guards of newMessageSetFromProto + differential harness (all arrival orders of all multisets of <= 4 publishes over 5 expected offsets, exhaustive; random histories up to 40 publishes with reopen and batches) with an independent oracle.",
+  design_ref="DESIGN.md section 4 (C16)",
+  note=LOG_NOTE + " Concurrency of publishers is reduced to arrival order at the partition leader's single message-processing loop (regenerated fact occBatchOne); the NATS/gRPC path in front of it is exercised by the server-level harness when present.",
+  technique="Lean 4 proof over commit-log model (all arrival orders) + regenerated guards + differential correspondence",
+ ),
  "C14": dict(
   level="Proof: Lean 4 theorems (check_total, unmarshal_total, replResp_total, classify_total, check_marshal, unmarshal_marshal, check_ok_exact, raw_verbatim, envelope_exact) about a model of checkEnvelope/marshalEnvelope/UnmarshalReplicationResponse/getMessage, for ALL byte strings, types, CRC functions and protobuf codecs. The model is tied to the code on every run: constants and the four comparison operators of the decoder are regenerated from envelope.go, and a differential harness runs ~135k (quick) header-grid and random inputs through the real decoders and the compiled model, plus an implementation-side spec oracle (no panic in any of the 14 Unmarshal* entry points, accepted payload = data[headerLen:], wrong CRC rejected, decode(encode m) = m).",
   design_ref="DESIGN.md section 4 (C14)",
